@@ -136,6 +136,8 @@ Fixpoint cmp_all (rprev : res val) (l : list (cmpop * expr)) : res val :=
   end.
 End CmpAll.
 
+Definition is_dunder (m : string) : bool := String.prefix "__" m.
+
 Fixpoint lv (e : expr) : lvres :=
   wrap
     (if hse BUILTIN_FUNCTIONS e then Exc KValue else
@@ -158,7 +160,8 @@ Fixpoint lv (e : expr) : lvres :=
          end
      | EMeth recv m args kws =>
          match kws with
-         | [] => a <- eval_list (fun x => sub (lv x)) args ;; call_method recv m a
+         | [] => if is_dunder m then Exc KValue          (* special methods are refused (hunt C15-5 / C06-1) *)
+                 else a <- eval_list (fun x => sub (lv x)) args ;; call_method recv m a
          | _ => Exc KValue                               (* literal_eval of a Call *)
          end
      | ECall f args kws =>
